@@ -121,8 +121,12 @@ Print Assumptions c07_valid_json_refuted.
    Replayed on the Go code: harness/bin/c07 probe-null-object. *)
 Theorem c07_response_merge_order_refuted :
   exists answer root_answer kind_of t1 t2 root,
-    root_wf root = true /    fetches_of t1 = [p4_f0; p4_f1; p4_f2] /\ fetches_of t2 = [p4_f0; p4_f2; p4_f1] /    o_failed (finish root (run answer root_answer kind_of no_faults t1)) = true /    let o := finish root (run answer root_answer kind_of no_faults t2) in
-    o_failed o = false /\ List.map le_kind (o_lerrors o) = [LE_FETCH] /    r_data (o_resolved o) = bs "{""a"":{""p"":{""x"":null,""y"":""why""}}}".
+    root_wf root = true /\
+    fetches_of t1 = [p4_f0; p4_f1; p4_f2] /\ fetches_of t2 = [p4_f0; p4_f2; p4_f1] /\
+    o_failed (finish root (run answer root_answer kind_of no_faults t1)) = true /\
+    let o := finish root (run answer root_answer kind_of no_faults t2) in
+    o_failed o = false /\ List.map le_kind (o_lerrors o) = [LE_FETCH] /\
+    r_data (o_resolved o) = bs "{""a"":{""p"":{""x"":null,""y"":""why""}}}".
 Proof. exact merge_order_refuted_proof. Qed.
 Print Assumptions c07_response_merge_order_refuted.
 
